@@ -16,7 +16,9 @@ type Cmd = [][]byte
 type G struct {
 	R    *rand.Rand
 	Keys []string // key pool of this program
-	Cls  bool     // cluster-safe: no empty strings / spaces are NOT avoided; only affects nothing yet
+	// Hostile draws payloads (values, elements, members, fields) mostly from byte strings that
+	// break the reply framing unless they are sent as bulk strings (C03)
+	Hostile bool
 }
 
 var keyAlphabet = []string{"k", "K", "Foo", "foo", "", "a b", "k\r\n", "\x00\xff", strings.Repeat("L", 200), "kk", "z1", "*", "a?c", "[x]"}
@@ -43,9 +45,26 @@ func New(r *rand.Rand) *G {
 	return g
 }
 
-func (g *G) pick(xs []string) string { return xs[g.R.Intn(len(xs))] }
-func (g *G) Key() string             { return g.Keys[g.R.Intn(len(g.Keys))] }
-func (g *G) chance(p float64) bool   { return g.R.Float64() < p }
+// hostilePayloads break the framing of any reply that does not send payloads as bulk strings.
+var hostilePayloads = []string{"a\r\nb", "\r\n", "+OK", "-ERR x", "$-1", ":1", "", "\x00", "x\ny", "*2\r\n$1\r\na"}
+
+func isPayloadAlphabet(xs []string) bool {
+	for _, a := range [][]string{strValues, listElems, hashFields, hashValues, setMembers, zMembers} {
+		if len(xs) > 0 && len(a) > 0 && &xs[0] == &a[0] {
+			return true
+		}
+	}
+	return false
+}
+
+func (g *G) pick(xs []string) string {
+	if g.Hostile && isPayloadAlphabet(xs) && g.R.Intn(10) < 7 {
+		return hostilePayloads[g.R.Intn(len(hostilePayloads))]
+	}
+	return xs[g.R.Intn(len(xs))]
+}
+func (g *G) Key() string           { return g.Keys[g.R.Intn(len(g.Keys))] }
+func (g *G) chance(p float64) bool { return g.R.Float64() < p }
 
 // caseMix randomly changes the letter case of an option/command word.
 func (g *G) caseMix(w string) string {
@@ -727,6 +746,13 @@ func farTTL(cmd Cmd) Cmd {
 				cmd[n-1] = []byte("1")
 			}
 		}
+	case "HRANDFIELD", "SRANDMEMBER":
+		// a negative count of -n legitimately returns n elements: keep the reference output small
+		if len(cmd) >= 3 {
+			if n, err := strconv.ParseInt(string(cmd[2]), 10, 64); err == nil && n < -1000 && n > -4611686018427387904 {
+				cmd[2] = []byte("-7")
+			}
+		}
 	case "SETEX", "EXPIRE":
 		bump(2, false)
 	case "SET":
@@ -748,9 +774,21 @@ func farTTL(cmd Cmd) Cmd {
 	return cmd
 }
 
+// FMixed draws every step from a randomly chosen family, with frame-breaking payloads and keys (C03).
+const FMixed = "mixed"
+
+var hostileKeys = []string{"k\r\n", "a\r\nb", "+OK", "$-1", "\r\n", "k", "", ":1"}
+
 // Program generates one program of the family: optional prelude and steps.
 func Program(r *rand.Rand, family string, maxSteps int) []Cmd {
 	g := New(r)
+	if family == FMixed {
+		g.Hostile = true
+		g.Keys = nil
+		for _, i := range r.Perm(len(hostileKeys))[:4] {
+			g.Keys = append(g.Keys, hostileKeys[i])
+		}
+	}
 	var prog []Cmd
 	if r.Intn(3) == 0 {
 		prog = append(prog, g.Prelude()...)
@@ -765,7 +803,11 @@ func Program(r *rand.Rand, family string, maxSteps int) []Cmd {
 		}
 	}
 	for i := 0; i < n; i++ {
-		switch family {
+		fam := family
+		if family == FMixed {
+			fam = []string{FString, FList, FHash, FSet, FZSet, FStream}[r.Intn(6)]
+		}
+		switch fam {
 		case FString:
 			prog = append(prog, g.String())
 		case FList:
